@@ -38,8 +38,9 @@
      is not a user-data block, in order, its times the block's timecodes converted at the file's frame rate minus the
      programme start (zero when told to ignore it), vertical position, justification, rows through the row parser of
      the display standard (C05_read_spec, C05_read_count, C05_read_item_fields); shorter files are errors.
-   Not proved here (oracle and correspondence only): reading of arbitrary renderings of a ground-truth file (style
-   codes in any order, closing codes omitted, colour / start box codes); the theorems cover the writer's rendering. *)
+   The reading half for ALL renderings of a ground-truth file (style codes in any order, redundant, repeated, unclosed;
+   undefined bytes; both currency positions; GSI fields in every form the parser accepts; user-data blocks anywhere;
+   open-subtitling and teletext rows) is C05_read_rendered, at the end of this file with its own comment block. *)
 From Coq Require Import List ZArith NArith Bool.
 From Astisub Require Import Kit.Base Kit.Str Kit.Utf8 Kit.Scan Model.Dur Model.Stl Gen.StlTables Proofs.StlCodec Proofs.StlBlocks
   Proofs.StlTti Proofs.StlGsi Proofs.StlRows Proofs.StlRowsTtx Proofs.StlDoc Proofs.StlWriteRead Proofs.StlReadSpec.
@@ -311,3 +312,22 @@ Example C05_read_rendered_needs_latin :
   let g := mkGsi 12337 3683632 [] [] 1 [48]%N [] [] 25 [] 40 23 [] [] [] [] 0 [] 0 0 [49]%N 1 1 0 0 [] [] [] [] [] in
   gsi_forms_okb writer_forms g = true /\ read_stl false (render_stl writer_forms g []) = Err EParse.
 Proof. exact needs_latin_table. Qed.
+
+(* what the meaning of a rendered file contains: every metadata field is the GSI value; the language is the image of the
+   language code under the library's mapping and empty for a code it does not know; the country code passes through *)
+Theorem C05_read_rendered_metadata : forall ign g blocks,
+  let d := denote_stl ign g blocks in
+  rd_fps d = g_fps g /\ rd_dsc d = g_dsc g /\ rd_title d = g_opt g /\ rd_oet d = g_oet g /\ rd_tpt d = g_tpt g /\ rd_tet d = g_tet g /\
+  rd_tn d = g_tn g /\ rd_tcd d = g_tcd g /\ rd_slr d = g_slr g /\ rd_cd d = g_cd g /\ rd_rd d = g_rd g /\ rd_rn d = g_rn g /\
+  rd_mnc d = g_mnc g /\ rd_mnr d = g_mnr g /\ rd_co d = g_co g /\ rd_pub d = g_pub g /\ rd_en d = g_en g /\ rd_ecd d = g_ecd g /\
+  rd_tcp d = (if ign then 0%Z else g_tcp g) /\
+  rd_lang d = match slookup (g_lc g) stl_language with Some l => l | None => [] end.
+Proof. exact denote_stl_metadata. Qed.
+Print Assumptions C05_read_rendered_metadata.
+(* a number field in each accepted form; a text field with leading blanks *)
+Theorem C05_read_rendered_number : forall f k v, (0 < k <= 18)%nat -> numform_ok f k v -> num_field (render_num f k v) = Ok v.
+Proof. exact render_num_field. Qed.
+Print Assumptions C05_read_rendered_number.
+Theorem C05_read_rendered_text_field : forall lead w s, trim_space s = s -> trim_space (render_text lead w s) = s.
+Proof. exact render_text_trim. Qed.
+Print Assumptions C05_read_rendered_text_field.
